@@ -27,6 +27,7 @@ type Out struct {
 	Prune   bool   `json:"prune,omitempty"`   // do not expand (terminal)
 	Checks  int    `json:"checks,omitempty"`  // oracle comparisons made
 	Steps   int    `json:"steps,omitempty"`   // real transitions executed (Flat)
+	Fatal   bool   `json:"fatal,omitempty"`   // a hang: stop the search after reporting
 }
 
 // Spec describes one search.
@@ -93,6 +94,7 @@ func BFS(run *ev.Run, s *Spec) Stats {
 	}
 	// the initial state is executed as well (depth 0)
 	first := true
+	aborted := false
 	for depth := 0; depth <= s.MaxDepth && len(frontier) > 0; depth++ {
 		var items [][]int
 		if first {
@@ -110,6 +112,8 @@ func BFS(run *ev.Run, s *Spec) Stats {
 			h := items[r.Index]
 			if r.Died {
 				run.Violation("process-death", fmt.Sprintf("%s: the node process died executing history %v\n%s", s.Name, describe(h), r.Stderr), map[string]interface{}{"spec": s.Name, "history": h, "described": describe(h)})
+				aborted = true
+				pool.Stop()
 				return
 			}
 			var o Out
@@ -117,6 +121,10 @@ func BFS(run *ev.Run, s *Spec) Stats {
 				ev.Fatal("bad worker response: %v: %s", err, string(r.Resp))
 			}
 			outs[r.Index] = &o
+			if o.Fatal {
+				aborted = true
+				pool.Stop()
+			}
 		})
 		var next [][]int
 		for i, o := range outs {
@@ -154,6 +162,11 @@ func BFS(run *ev.Run, s *Spec) Stats {
 			}
 		}
 		frontier = next
+		if aborted {
+			st.Exhaustive = false
+			run.Capped(fmt.Sprintf("%s: search stopped at depth %d after a fatal violation (hang or process death)", s.Name, depth))
+			break
+		}
 		if s.MaxStates > 0 && st.States >= s.MaxStates {
 			st.Exhaustive = false
 			run.Capped(fmt.Sprintf("%s: state cap %d reached at depth %d", s.Name, s.MaxStates, depth))
